@@ -11,6 +11,11 @@ import (
 	"github.com/lmorg/murex/zzverif/rt"
 )
 
+var verifC30clock func() time.Time
+
+// verifNow stands in for time.Now in the natively compiled internal.go of a replay.
+func verifNow() time.Time { return verifC30clock() }
+
 type verifC30write struct {
 	ns, key int
 	val     int
@@ -27,10 +32,13 @@ func VerifC30History() {
 	base := int64(1_700_000_000)
 	var now int64 = base
 	rt.Stub("github.com/lmorg/murex/utils/cache.createDb", func(string) {}) // no SQLite layer
-	rt.Stub("time.Now", func() time.Time {
+	verifC30clock = func() time.Time {
 		now = base + rt.Clock()
 		return time.Unix(now, 0)
-	})
+	}
+	// engine: every time.Now is the symbolic clock; native replay: internal.go is compiled with
+	// `time.Now()` textually replaced by verifNow() (spec.json replay_rewrite) and tag no_cachedb
+	rt.Stub("time.Now", verifC30clock)
 	nss := []string{"verif_ns0", "verif_ns1"}
 	keys := []string{"k0", "k1"}
 	configCacheDisabled = false
